@@ -133,3 +133,29 @@ def unit_validated_python_name():
                 "assumptions": ["A-TOK: generated_tokens(text) delivers a finite token sequence ending in exactly one ENDMARKER, or raises TokenError / SyntaxError at the first next()",
                                 "tokenize.ISEOF(t) is t == token.ENDMARKER (stdlib definition)"]}
     return ProofUnit("_tools.validated_python_name", "validated_python_name: exactly one NAME token, returned as is; anything else is a NameError (converted to InterfaceError by add_field_format_row)", ["C09", "C10"], make, None)
+
+
+def unit_compat_csv():
+    """_compat.csv_reader / csv_writer: plain delegation to the csv module with the stream, the dialect and every keyword unchanged"""
+    def mk(which):
+        def setup(ex, st):
+            s = Ref("Stream"); st.heap[s.oid] = {}
+            kws = {"delimiter": fresh(STR, "delimiter")[0], "quotechar": fresh(STR, "quotechar")[0], "doublequote": fresh(BOOL, "doublequote")[0], "escapechar": fresh(Opt(STR), "escapechar")[0],
+                   "quoting": fresh(INT, "quoting")[0], "skipinitialspace": fresh(BOOL, "skip")[0], "strict": True}
+            st.frames[-1].env.update({"source_text_stream" if which == "reader" else "target_text_stream": s, "keywords": kws})
+            st.ghost.update({"stream": s, "kws": kws, "called": None})
+        def m_csv(ex, st, fn, args, kw):
+            st.ghost["called"] = (list(args), dict(kw)); r = Ref("CsvObject"); st.heap[r.oid] = {}; st.ghost["obj"] = r; yield st, r
+        def c_delegates(ex, st):
+            g = st.ghost; c = g["called"]
+            if c is None or st.ghost["__result__"] is not g.get("obj"): return Sym(BOOL, z3.BoolVal(False))
+            a, kw = c
+            dialect = kw.pop("dialect", None)
+            ok = len(a) == 1 and a[0] is g["stream"] and set(kw) == set(g["kws"]) and all(kw[k] is v or (isinstance(v, bool) and kw[k] is v) for k, v in g["kws"].items()) and getattr(dialect, "name", None) in ("csv.excel", "excel")
+            return Sym(BOOL, z3.BoolVal(bool(ok)))
+        c = Contract("_compat.csv_%s" % which, setup,
+                returns=[Clause(c_delegates, "returns-csv.%s(stream,-dialect=csv.excel,-every-keyword-unchanged):-nothing-is-filtered-on-the-way" % which, props=["C12", "C14", "C06"])],
+                raises={}, expect=["return"], raises_only_props=["C10"])
+        return {"contract": c, "label": which, "callees": {"builtin:csv.%s" % which: m_csv}, "assumptions": ["csv.%s is the standard library's (A-CSV, audited by the round trips)" % which]}
+    def make(ctx): return [mk("reader"), mk("writer")]
+    return ProofUnit("_compat.csv_reader+writer", "_compat.csv_reader / csv_writer delegate to the csv module with stream, dialect and keywords unchanged", ["C12", "C14", "C06", "C10"], make, None)
